@@ -341,6 +341,10 @@ def validate(seed, tier):
             inp2 = dict(inp, kind=kind, site=0)
             runner.concrete_check('operation', inp2)
             n += 1
+            if kind != 'scalars':
+                # dtype mix (erased by the symbolic encoding): real local tensors against complex environment blocks
+                runner.concrete_check('operation', dict(inp2, real_xy=True))
+                n += 1
     return dict(concrete_inputs_checked=n)
 
 
